@@ -739,6 +739,31 @@ def r7_collect(src, ctx):
         if done: return src
 
 
+
+def r18_any_position(src, ctx):
+    """`E.iter().any(|p| C)` / `E.iter().position(|p| C)` -> explicit scan that stops at the first hit (std definition)."""
+    while True:
+        done = True
+        for ct, r0, dot, segs, nxt in _find_iter_chains(src):
+            if len(segs) != 2 or segs[0][0] != 'iter' or segs[1][0] not in ('any', 'position'): continue
+            cp = closure_parts(src, ct, *segs[1][1])
+            if cp is None: raise Unsupported('any/position without closure')
+            p, body = cp
+            recv = re.sub(r'\s*\.\s*', '.', src[ct[r0].s:ct[dot].s].strip())
+            end = ct[segs[1][1][1]].e
+            iv = ctx.fresh('i'); fv = ctx.fresh('f')
+            if segs[1][0] == 'any':
+                new = (f'({{ let mut {fv} = false; let mut {iv}: usize = 0;\nwhile {iv} < {recv}.len() && !{fv} /*DEC*/ decreases {recv}.len() - {iv} {{\n'
+                       f'let {p} = &{recv}[{iv}]; {iv} += 1;\nif {body} {{ {fv} = true; }}\n}}\n{fv} }})')
+            else:
+                new = (f'({{ let mut {fv}: Option<usize> = None; let mut {iv}: usize = 0;\nwhile {iv} < {recv}.len() && {fv}.is_none() /*DEC*/ decreases {recv}.len() - {iv} {{\n'
+                       f'let {p} = &{recv}[{iv}];\nif {body} {{ {fv} = Some({iv}); }}\n{iv} += 1;\n}}\n{fv} }})')
+            ctx.log.append(('R18', re.sub(r'\s+', ' ', src[ct[r0].s:end])[:200], re.sub(r'\s+', ' ', new)[:300]))
+            src = src[:ct[r0].s] + new + src[end:]
+            done = False
+            break
+        if done: return src
+
 def r11_into_values(src, ctx):
     def rep(m):
         ctx.log.append(('R11', m.group(0), m.group(1) + '.into_values()'))
@@ -810,6 +835,7 @@ def apply_all(src, ctx):
     src = r9c_and_modify(src, ctx)
     src = r9b_or_insert_with(src, ctx)
     src = r11_into_values(src, ctx)
+    src = r18_any_position(src, ctx)
     src = r7_collect(src, ctx)
     src = r2_sum(src, ctx)
     src = r12_skip_by_value(src, ctx)
